@@ -35,7 +35,7 @@ def main():
     t0 = time.time()
     # (scenario range, miri seeds, preemption rate)
     if tier == "thorough":
-        plan = [((k * 16, k * 16 + 16), (0, 64), [0.05, 0.2, 0.5][k % 3]) for k in range(24)]
+        plan = [((k * 16, k * 16 + 16), (0, 32), [0.05, 0.2, 0.5][k % 3]) for k in range(16)]
     else:
         plan = [((k * 8, k * 8 + 8), (0, 8), [0.1, 0.3][k % 2]) for k in range(4)]
     pairs = 0
